@@ -45,3 +45,41 @@ claim("C08",
       "with Python's re.",
       "Coq proof (staging invariant by induction over the step/row loops) + in-Coq differential correspondence with Study.stage()",
       "DESIGN.md 5/C08, 10")
+claim("C05",
+      "Coq theorems over the regenerated polling model, for all graphs, throttles, restart limits, attempts, reachable states and input "
+      "streams: the verdict function is characterised exactly (FINISHED iff all completed and no cancel; CANCELLED / FAILURE / RUNNING "
+      "cases; never ABORT; a final verdict leaves nothing in progress), exit code = regenerated StudyStatus value (0 iff FINISHED), a "
+      "potential function (3/2/1 weights + remaining restart budget) never increases except on hardware-failure reports and strictly "
+      "decreases on productive polls, no deadlock when nothing is in progress, and termination for every fair, eventually quiet stream "
+      "(C05_terminates) with the quantitative bound. C05_ran_all_enabled is not proved (monitor code 55 checks it at run time). Tie: T-code, "
+      "histories against the real ExecutionGraph / Conductor.monitor_study incl. fair tails that must stop within the bound, and process "
+      "exit codes of real `maestro run -fg` / `conductor` runs.",
+      "Coq proof (inductive invariant + variant/potential argument over infinite streams) + in-Coq differential correspondence + end-to-end exit codes",
+      "DESIGN.md 5/C05, 10", "PARTIAL for the clause 'has run every enabled step' (run-time monitor only).")
+claim("C10",
+      "Coq theorems for all strings (Unicode code points) over the regenerated sanitiser alphabet and the path model: sanitised components "
+      "contain no '/', workspaces root/c1[/c2] are strictly inside the root after (proved idempotent) normalisation, distinct instances have "
+      "distinct workspaces and script paths and are not nested under H10 (sanitiser injective on the study's names / digest injective with "
+      "--hashws), every script/.out/.err is a direct child of its directory; three known findings outside H10 are refuted by witnesses and "
+      "the monitor holds on the exact complement of their signatures. Tie: alphabet and file-name templates regenerated from source; dry "
+      "runs of generated studies with all four adapters, --hashws/--usetmp, compared (paths, trees) with the model inside Coq.",
+      "Coq proof (string/path normal forms, injectivity) + in-Coq differential correspondence on real dry runs",
+      "DESIGN.md 5/C10, 10")
+claim("C12",
+      "Coq theorems: status order is a duplicate-free permutation of the instances (BFS exact), writer/reader round trip for all tables "
+      "inside H12 (= exactly the complement of the two known-finding signatures, refuted by witnesses), each row shows the current record, "
+      "by induction over all polls the Job ID / State / Restarts columns are those of the Exec model, and in an interleaving model of the "
+      "lock discipline every schedule gives a reader {} or the last complete table (torn reads exist once the lock is removed). Tie: "
+      "header/format constants regenerated from source, an ast obligation that both opens are inside the lock, real status.csv after every "
+      "poll of real histories compared with the model inside Coq, a deterministic Timeout scenario and a multi-process stress run on the "
+      "real FileLock.",
+      "Coq proof (BFS, CSV round trip, interleaving semantics) + in-Coq differential correspondence + lock stress run",
+      "DESIGN.md 5/C12, 10", "PARTIAL: mutual exclusion itself (filelock + OS) is assumed and exercised, not proved.")
+claim("C19",
+      "Coq theorems on the regenerated Exec model for local steps (at most `attempts` submissions stopping at the first success; success => "
+      "FINISHED and completed in the same poll; all attempts failing => FAILED with the sub-tree swept; a step is submitted only when all "
+      "parents completed). Tie: studies run end-to-end through the real `maestro run -fg` with the real LocalScriptAdapter (exit codes "
+      "1..255 and signal kills per attempt); marker sequence, cwd, .out/.err capture, status rows and exit code checked, the Exec model's "
+      "trace compared inside Coq.",
+      "Coq proof over the Exec model + end-to-end differential run through the real CLI and local adapter",
+      "DESIGN.md 5/C19, 10", "PARTIAL: that Popen waits for the child and reports its code is OS/CPython behaviour, exercised not modelled.")
